@@ -23,9 +23,15 @@ Definition nkids (t : tree) : Z := Z.of_nat (length (t_kids t)).
 Definition set_len (e : option Z) (t : tree) : tree :=
   match t with T i x l _ ks => T i x l e ks end.
 
-(* collapse_basal_bifurcation:   try: to_keep.edge.length += to_del_edge.length   except: pass *)
+(* collapse_basal_bifurcation:
+     if to_del_edge.length is not None:
+         if to_keep.edge.length is None: to_keep.edge.length = to_del_edge.length
+         else: to_keep.edge.length += to_del_edge.length *)
 Definition add_len (keep del : option Z) : option Z :=
-  match keep, del with Some a, Some b => Some (a + b) | _, _ => keep end.
+  match del with
+  | None => keep
+  | Some d => match keep with None => Some d | Some k => Some (k + d) end
+  end.
 
 (* unifurcation suppression inside encode_bipartitions:
      if head.edge.length is not None:
@@ -130,11 +136,10 @@ Definition bip_is_trivial (split fill : Z) : bool := py_is_trivial_bitmask split
 Definition bip_is_compatible_with (split1 split2 fill1 : Z) : bool :=
   py_is_compatible_bitmasks split1 split2 fill1.
 
-(* is_compatible_with(int).  Recorded finding: the int is used as given.  `norm_int` = true is the
-   repaired form (an un-normalised int is normalised like a Bipartition's split when self is not
-   rooted); the harness determines which form the working tree has by replaying the finding's case. *)
-Definition bip_is_compatible_with_int (norm_int : bool) (r1 : option bool) (split1 other fill1 : Z) : bool :=
-  let m2 := if norm_int && negb (is_true r1)
+(* is_compatible_with(int): an int is normalised like the split of the Bipartition built from it
+   when self is not rooted (and a lowest relevant bit is known: fill <> 0) *)
+Definition bip_is_compatible_with_int (r1 : option bool) (split1 other fill1 : Z) : bool :=
+  let m2 := if negb (is_true r1)
             then py_normalize_bitmask other fill1 (py_least_significant_set_bit fill1) else other in
   py_is_compatible_bitmasks split1 m2 fill1.
 
@@ -258,11 +263,11 @@ Record bip_obs : Type := mkBip {
   p_nested : bool; p_nested_masked : bool; p_leafset_nested : bool; p_leafset_nested_int : bool
 }.
 
-Definition bip_run (norm_int : bool) (a b f : Z) (r : option bool) : bip_obs :=
+Definition bip_run (a b f : Z) (r : option bool) : bip_obs :=
   let b1 := mk_bip a f r in
   let b2 := mk_bip b f r in
   mkBip b1 b2 (bip_is_trivial (snd b1) f) (bip_is_compatible_with (snd b1) (snd b2) f)
-        (bip_is_compatible_with_int norm_int r (snd b1) b f)
+        (bip_is_compatible_with_int r (snd b1) b f)
         (bip_is_nested_within r b1 b2 f false) (bip_is_nested_within r b1 b2 f true)
         (bip_is_leafset_nested_within (fst b1) (fst b2) f) (bip_is_leafset_nested_within (fst b1) b f).
 
@@ -281,7 +286,7 @@ Inductive case : Type :=
 | CEnc (acc : list (Z * Z)) (rooted : option bool) (t : tree) (twice : bool)
        (expected : enc_result) (probes : list (Z * bool))
 | CBits (a b f : Z) (expected : bits_obs)
-| CBip (norm_int : bool) (a b f : Z) (r : option bool) (expected : bip_obs)
+| CBip (a b f : Z) (r : option bool) (expected : bip_obs)
 | CFrom (ns : list (Z * Z)) (count : Z) (rooted : option bool) (splits : list Z) (expected : mtree).
 
 Definition enc_run (acc : list (Z * Z)) (rooted : option bool) (t : tree) (twice : bool) : enc_result :=
@@ -300,7 +305,7 @@ Definition case_ok (c : case) : bool :=
     enc_result_eqb r expected &&
     forallb (fun p => Bool.eqb (probe_run r (fst p)) (snd p)) probes
   | CBits a b f expected => bits_obs_eqb (bits_run a b f) expected
-  | CBip ni a b f r expected => bip_obs_eqb (bip_run ni a b f r) expected
+  | CBip a b f r expected => bip_obs_eqb (bip_run a b f r) expected
   | CFrom ns count rooted splits expected => mtree_eqb (from_splits ns count rooted splits) expected
   end.
 
@@ -316,6 +321,6 @@ Definition case_show (c : case) : shown :=
   | CEnc acc rooted t twice _ probes =>
     let r := enc_run acc rooted t twice in SEnc r (map (fun p => probe_run r (fst p)) probes)
   | CBits a b f _ => SBits (bits_run a b f)
-  | CBip ni a b f r _ => SBip (bip_run ni a b f r)
+  | CBip a b f r _ => SBip (bip_run a b f r)
   | CFrom ns count rooted splits _ => SFrom (from_splits ns count rooted splits)
   end.
